@@ -86,6 +86,19 @@ def r2(ctx):
             ld.loc(cfg.nodes[use].ast),
         )
     ctx.ok("config:load_database:loop-carried:only-result-list")
+    # ... and nothing but the result list from one compiler pass of an entry to the next
+    for inner in [n for n in ast.walk(loop) if isinstance(n, ast.For) and n is not loop and any(isinstance(x, ast.Name) and x.id == "configuration" for x in ast.walk(n))]:
+        carried_in, cfg_in = loop_carried(ld, inner)
+        for name, pairs in sorted(carried_in.items()):
+            if name == "configuration":
+                continue
+            d, use = pairs[0]
+            ctx.violation(
+                f"config:load_database:pass-loop-carried:{name}",
+                f"`{name}` assigned at `{u(cfg_in.nodes[d].ast)[:60]}` for one compiler pass is still in effect at `{u(cfg_in.nodes[use].ast)[:60]}` for the next pass of the same entry",
+                ld.loc(cfg_in.nodes[use].ast),
+            )
+        ctx.ok(f"config:load_database:pass-loop-carried:only-result-list@{u(inner.target)}")
     # the directory base
     joins = [c for c in ast.walk(loop) if isinstance(c, ast.Call) and callee(c) == "os.path.join"]
     file_join = [c for c in joins if any(f"{cmd}.filename" in u(a) for a in c.args)]
